@@ -46,6 +46,9 @@ def install(extras=()):
                 _saved.append((mod, attr, orig))
                 setattr(mod, attr, repl)
                 PATCHED.append(f"{name}.{attr}")
+        if "float" not in d:  # builtin float() shadowed by a stand-in that is the identity on symbolic scalars
+            _saved.append((mod, "float", _MISSING))
+            mod.float = symnp.SymFloat
     for mod, attr, val in extras:
         if isinstance(mod, str):
             mod = importlib.import_module(mod)
